@@ -57,6 +57,7 @@ type monitor struct {
 	harnessErr int
 	viol       map[string]*violBucket
 	samples    map[string][]sampleCand
+	reps       map[string][]*Case // representatives per directive for phase 4
 }
 
 // violBucket: verdicts are reached in worker goroutines; they are reported at
@@ -68,6 +69,7 @@ type violBucket struct {
 }
 
 type deferredViolation struct {
+	rank      int // 0 = fully attributed witness, 1 = weaker witness
 	id        int
 	key, what string
 	witness   interface{}
@@ -79,6 +81,10 @@ type sampleCand struct {
 }
 
 func (m *monitor) deferViolation(id int, key, what string, witness interface{}) {
+	m.deferViolationRank(0, id, key, what, witness)
+}
+
+func (m *monitor) deferViolationRank(rank, id int, key, what string, witness interface{}) {
 	m.mu.Lock()
 	defer m.mu.Unlock()
 	b := m.viol[key]
@@ -87,8 +93,13 @@ func (m *monitor) deferViolation(id int, key, what string, witness interface{}) 
 		m.viol[key] = b
 	}
 	b.n++
-	b.best = append(b.best, deferredViolation{id, key, what, witness})
-	sort.Slice(b.best, func(i, j int) bool { return b.best[i].id < b.best[j].id })
+	b.best = append(b.best, deferredViolation{rank, id, key, what, witness})
+	sort.Slice(b.best, func(i, j int) bool {
+		if b.best[i].rank != b.best[j].rank {
+			return b.best[i].rank < b.best[j].rank
+		}
+		return b.best[i].id < b.best[j].id
+	})
 	if len(b.best) > 3 {
 		b.best = b.best[:3]
 	}
@@ -149,7 +160,7 @@ func run(c *lib.Ctx) {
 		"loaded twice in the same child; a stratified sample is additionally validated and really started. non-trivial = distinct directive text whose outcome was decided by the " +
 		"directive's setup (accepted, or rejected with an error that is not a Casketfile parser error), plus distinct validate-vs-start comparisons")
 	m := &monitor{c: c, deadlocks: map[string]int{}, perDirAcc: map[string]int{}, perDirRej: map[string]int{},
-		viol: map[string]*violBucket{}, samples: map[string][]sampleCand{}}
+		viol: map[string]*violBucket{}, samples: map[string][]sampleCand{}, reps: map[string][]*Case{}}
 	m.tParkMs.Store(1500)
 	defer m.flushSamples()
 	defer m.flushViolations()
@@ -167,7 +178,7 @@ func run(c *lib.Ctx) {
 	c.Count("directives", int64(len(dirs)))
 	c.Set("directive_list", dirs)
 
-	m.sandbox = os.Geteuid() == 0
+	m.sandbox = os.Geteuid() == 0 // root always gets the chroot: never load generated arguments as root outside it
 	if err := m.makeFixture(); err != nil {
 		fmt.Printf("BROKEN-RUN property=C11 fixture: %v\n", err)
 		c.Count("broken_floor", 1)
@@ -219,6 +230,7 @@ func run(c *lib.Ctx) {
 		}(i, dv)
 	}
 	wg.Wait()
+	m.crossPhase(dirs)
 
 	// ---- floors: the run must have exercised every directive both ways
 	okBoth := 0
@@ -294,14 +306,120 @@ func (m *monitor) pipeline(idx int, dv *dirVocab) {
 	ds.number(startCases)
 	m.runAll(dv.name+"-start", "start", startCases, func(k *Case, r *caseRes) { m.judgeStartOne(k, r) })
 
+	// representatives for the cross-directive phase: accepted cases (one of
+	// them with a sub-block if there is any) and rejected ones, chosen by a
+	// hash of the case id
+	var accIDs, rejIDs []int
+	for oc, ids := range ds.outcomes {
+		if oc == "ACCEPT" {
+			accIDs = append(accIDs, ids...)
+		} else {
+			rejIDs = append(rejIDs, ids...)
+		}
+	}
+	byMix := func(ids []int) {
+		sort.Slice(ids, func(i, j int) bool { return mix(ids[i]) < mix(ids[j]) })
+	}
+	byMix(accIDs)
+	byMix(rejIDs)
+	var reps []*Case
+	for _, id := range accIDs {
+		if k := byID[id]; k != nil && len(k.Lines) > 0 {
+			reps = append(reps, k)
+			break
+		}
+	}
+	for _, id := range accIDs {
+		if len(reps) >= m.b.crossAcc {
+			break
+		}
+		if k := byID[id]; k != nil && (len(reps) == 0 || k != reps[0]) {
+			reps = append(reps, k)
+		}
+	}
+	for i, id := range rejIDs {
+		if i >= m.b.crossRej {
+			break
+		}
+		if k := byID[id]; k != nil {
+			reps = append(reps, k)
+		}
+	}
 	m.mu.Lock()
+	m.reps[dv.name] = reps
 	m.nOutcomes += len(ds.outcomes)
 	m.mu.Unlock()
+}
+
+// crossPhase loads site blocks holding two different directives.
+func (m *monitor) crossPhase(dirs []string) {
+	c := m.c
+	cases := genCross(c, dirs, m.reps)
+	for i, k := range cases {
+		k.ID = 900_000_000 + i
+	}
+	var mu sync.Mutex
+	accN := map[bool][]*Case{}
+	m.runAll("cross", "batch", cases, func(k *Case, r *caseRes) {
+		if r == nil || len(r.Runs) < 2 {
+			return
+		}
+		c.Eval(1)
+		c.Count("loads", 2)
+		c.Count("cross_directive_cases", 1)
+		if p := anyPanic(r.Runs); p != nil {
+			c.Count("panics", 1)
+			c.Nontrivial(k.Key())
+			m.deferViolation(k.ID, "C11/panic/"+r.PanicSig, fmt.Sprintf("setup of `%s` panics: %s", oneLine(k.Key()), p.Panic),
+				map[string]interface{}{"casketfile": k.Text("127.0.0.1:2015"), "minimal_casketfile": r.MinText, "panic": p.Panic, "stack": p.Stack,
+					"call": "casket.ValidateAndExecuteDirectives(input, nil, true)"})
+			return
+		}
+		if r.Runs[0].Acc != r.Runs[1].Acc {
+			c.Count("second_load_outcome_differs", 1)
+		}
+		c.Nontrivial(k.Key())
+		if r.Runs[0].Acc {
+			c.Count("cross_accepted", 1)
+			m.sample("accepted-two-directives", 2, k.ID, oneLine(k.Key()))
+		}
+		mu.Lock()
+		accN[r.Runs[0].Acc] = append(accN[r.Runs[0].Acc], k)
+		mu.Unlock()
+	})
+	// agreement on a sample: all-accepted combinations are the interesting
+	// ones (parsing callbacks run between directives only in a real start)
+	var sample []*Case
+	for _, acc := range []bool{true, false} {
+		l := accN[acc]
+		sort.Slice(l, func(i, j int) bool { return mix(l[i].ID) < mix(l[j].ID) })
+		n := m.b.crossStart * 2 / 3
+		if !acc {
+			n = m.b.crossStart - len(sample)
+		}
+		if n > len(l) {
+			n = len(l)
+		}
+		for _, k := range l[:n] {
+			kk := *k
+			kk.ID = k.ID + 50_000_000
+			sample = append(sample, &kk)
+		}
+	}
+	m.runAll("cross-start", "start", sample, func(k *Case, r *caseRes) { m.judgeStartOne(k, r) })
 }
 
 // makeFixture builds the small directory the children are confined to.
 func (m *monitor) makeFixture() error {
 	m.fix = filepath.Join(m.c.Dir, "fix")
+	// a read-only fixture left by an earlier non-root run: make it writable and start over
+	filepath.Walk(m.fix, func(p string, info os.FileInfo, err error) error {
+		if err == nil && info.IsDir() {
+			os.Chmod(p, 0o755)
+		}
+		return nil
+	})
+	os.RemoveAll(m.fix)
 	for _, d := range []string{"", "d", "certs"} {
 		if err := os.MkdirAll(filepath.Join(m.fix, d), 0o755); err != nil {
 			return err
@@ -327,6 +445,9 @@ func (m *monitor) makeFixture() error {
 			return err
 		}
 		if info.IsDir() {
+			if !m.sandbox {
+				return os.Chmod(p, 0o555) // not root: keep loads from creating files in it
+			}
 			return os.Chmod(p, 0o755)
 		}
 		return os.Chmod(p, 0o644)
@@ -458,7 +579,7 @@ func hasCrash(res *lib.SubResult) (bool, string, string) {
 	if fr == "" {
 		fr = "unknown"
 	}
-	return true, fr, tail
+	return true, frameName(fr), tail
 }
 
 // sub runs `vh sub C11 <mode> args...` like lib.Ctx.Sub, but with a stderr file
@@ -523,7 +644,9 @@ func (m *monitor) runChildLinger(tag, mode string, cases []*Case, tPark, tMax, l
 	// the outer watchdog is only a backstop for the in-child progress monitor
 	res := m.sub(tag, mode, m.subArgs(in, out, tPark, tMax, linger), time.Duration(tMax)*time.Millisecond*4+20*time.Minute)
 	o := parseOut(out)
-	os.Remove(in)
+	if os.Getenv("C11_KEEP") == "" {
+		os.Remove(in)
+	}
 	if (o.done || o.restart) && res.Code == 0 {
 		os.Remove(out)
 	}
@@ -578,6 +701,20 @@ func (m *monitor) runBatch(tag, mode string, batch []*Case, judge func(*Case, *c
 		}
 		m.abnormal(tag, mode, k, rem[:n+1], o, res, judge)
 		rem = rem[n+1:]
+		// a tree on which one lock is lost again and again: the verdict is
+		// established, do not spend the whole budget re-establishing it
+		m.mu.Lock()
+		worst := 0
+		for _, n := range m.deadlocks {
+			if n > worst {
+				worst = n
+			}
+		}
+		m.mu.Unlock()
+		if worst > 100 && len(rem) > 0 {
+			c.Count("cases_skipped_after_100_deadlocks_of_one_kind", int64(len(rem)))
+			return
+		}
 	}
 }
 
@@ -667,7 +804,7 @@ func (m *monitor) abnormal(tag, mode string, k *Case, prefix []*Case, o *outPars
 				}
 			}
 			if !confirmed {
-				c.Inconclusive(fmt.Sprintf("load parked in %s once but not when re-run (alone, after its predecessor, after the whole batch prefix): %s", frame, oneLine(k.Directive())))
+				c.Inconclusive(fmt.Sprintf("load parked in %s once but not when re-run (alone, after its predecessor, after the whole batch prefix): %s", frame, oneLine(k.Key())))
 				if alone != nil {
 					judge(k, alone)
 				}
@@ -680,7 +817,7 @@ func (m *monitor) abnormal(tag, mode string, k *Case, prefix []*Case, o *outPars
 		c.Count("deadlocks", 1)
 		c.Eval(1)
 		c.Nontrivial(k.Directive())
-		what := fmt.Sprintf("load %d of `%s` never returns: goroutine parked in %s", o.pendRun, oneLine(k.Directive()), frame)
+		what := fmt.Sprintf("load %d of `%s` never returns: goroutine parked in %s", o.pendRun, oneLine(k.Key()), frame)
 		m.deferViolation(k.ID, key, what, witness)
 	case o.stall != "" || res.TimedOut:
 		// slow or spinning: not decidable from the dump; give it 10x alone
@@ -691,12 +828,12 @@ func (m *monitor) abnormal(tag, mode string, k *Case, prefix []*Case, o *outPars
 			return
 		}
 		c.Eval(1)
-		c.Inconclusive(fmt.Sprintf("no return within 30 s and again within 300 s alone, goroutine not parked in a lock: %s", oneLine(k.Directive())))
+		c.Inconclusive(fmt.Sprintf("no return within 30 s and again within 300 s alone, goroutine not parked in a lock: %s", oneLine(k.Key())))
 	default:
 		witness["stderr_tail"] = trunc(tailOf(dump, 3000), 3000)
 		c.Count("exits_during_load", 1)
 		c.Eval(1)
-		m.deferViolation(k.ID, "C11/exit-during-load/"+k.Dir, fmt.Sprintf("process exited (code %d) inside the load of `%s`", res.Code, oneLine(k.Directive())), witness)
+		m.deferViolation(k.ID, "C11/exit-during-load/"+k.Dir, fmt.Sprintf("process exited (code %d) inside the load of `%s`", res.Code, oneLine(k.Key())), witness)
 	}
 }
 
@@ -724,20 +861,28 @@ func (m *monitor) crash(tag, mode string, ran []*Case, o *outParse, res *lib.Sub
 	}
 	witness := map[string]interface{}{"mode": mode, "child_exit_code": res.Code, "stderr": trunc(tail, 6000), "crashing_frame": frame}
 	var culprit *Case
-	if attributed < 3 {
-		for i, n := len(ran)-1, 0; i >= 0 && n < 25; i, n = i-1, n+1 {
-			k := ran[i]
-			o2, res2 := m.runChildLinger(fmt.Sprintf("%s-bisect%d", tag, n), mode, []*Case{k}, m.tParkMs.Load(), 30000, 500)
-			if cr, f2, t2 := hasCrash(res2); cr && f2 == frame {
-				culprit = k
-				witness["stderr"] = trunc(t2, 6000)
-				witness["reproduced_alone"] = true
-				break
+	if attributed < 3 && len(ran) > 0 {
+		// bisect over everything this child had loaded: a goroutine started
+		// by a setup may crash the process many cases later
+		crashes := func(sub []*Case, n int) (bool, string) {
+			_, res2 := m.runChildLinger(fmt.Sprintf("%s-bisect%d-%d", tag, ran[len(ran)-1].ID, n), mode, sub, m.tParkMs.Load(), 30000, 500)
+			cr, f2, t2 := hasCrash(res2)
+			return cr && f2 == frame, t2
+		}
+		lo, hi, n := 0, len(ran), 0
+		for hi-lo > 1 {
+			mid := (lo + hi) / 2
+			n++
+			if cr, _ := crashes(ran[lo:mid], n); cr {
+				hi = mid
+			} else {
+				lo = mid
 			}
-			if k == pend && len(o2.results) == 1 {
-				judge(k, o2.results[0])
-				pend = nil
-			}
+		}
+		if cr, t2 := crashes(ran[lo:hi], n+1); cr {
+			culprit = ran[lo]
+			witness["stderr"] = trunc(t2, 6000)
+			witness["reproduced_alone"] = true
 		}
 	}
 	if pend != nil && culprit != pend {
@@ -747,9 +892,10 @@ func (m *monitor) crash(tag, mode string, ran []*Case, o *outParse, res *lib.Sub
 		}
 	}
 	c.Eval(1)
-	id := 0
+	id, rank := 0, 1
 	what := ""
 	if culprit != nil {
+		rank = 0
 		id = culprit.ID
 		witness["casketfile"] = culprit.Text("127.0.0.1:2015")
 		c.Nontrivial("crash|" + culprit.Directive())
@@ -761,7 +907,7 @@ func (m *monitor) crash(tag, mode string, ran []*Case, o *outParse, res *lib.Sub
 		witness["recent_cases_most_recent_first"] = recent
 		what = fmt.Sprintf("process died while loading configurations (one of the %d most recent cases; not attributed to a single one): %s", len(recent), firstLine(tail))
 	}
-	m.deferViolation(id, key, what, witness)
+	m.deferViolationRank(rank, id, key, what, witness)
 }
 
 func tailOf(s string, n int) string {
@@ -834,14 +980,14 @@ func (m *monitor) judgeOne(ds *dirState, k *Case, r *caseRes) {
 		c.Count("panics", 1)
 		c.Nontrivial(k.Directive())
 		m.deferViolation(k.ID, "C11/panic/"+r.PanicSig,
-			fmt.Sprintf("setup of `%s` panics: %s", oneLine(k.Directive()), p.Panic),
+			fmt.Sprintf("setup of `%s` panics: %s", oneLine(k.Key()), p.Panic),
 			map[string]interface{}{"casketfile": k.Text("127.0.0.1:2015"), "minimal_casketfile": r.MinText, "panic": p.Panic, "stack": p.Stack, "panicking_load": run,
 				"call": "casket.ValidateAndExecuteDirectives(input, nil, true)"})
 		return
 	}
 	if r1.Acc != r2.Acc {
 		c.Count("second_load_outcome_differs", 1)
-		m.sample("second-identical-load-differs(not judged)", 3, k.ID, map[string]interface{}{"directive": oneLine(k.Directive()), "first": r1, "second": r2})
+		m.sample("second-identical-load-differs(not judged)", 3, k.ID, map[string]interface{}{"directive": oneLine(k.Key()), "first": r1, "second": r2})
 	}
 	oc := outcomeClass(r1)
 	ds.mu.Lock()
@@ -872,13 +1018,13 @@ func (m *monitor) judgeOne(ds *dirState, k *Case, r *caseRes) {
 	}
 	switch {
 	case r1.Acc && len(k.Lines) == 2:
-		m.sample("accepted-two-line-block", 2, k.ID, oneLine(k.Directive()))
+		m.sample("accepted-two-line-block", 2, k.ID, oneLine(k.Key()))
 	case r1.Acc && len(k.Lines) == 1:
-		m.sample("accepted-block", 2, k.ID, oneLine(k.Directive()))
+		m.sample("accepted-block", 2, k.ID, oneLine(k.Key()))
 	case !r1.Acc && len(k.Lines) == 1:
-		m.sample("rejected-block", 2, k.ID, map[string]string{"directive": oneLine(k.Directive()), "error": r1.Err})
+		m.sample("rejected-block", 2, k.ID, map[string]string{"directive": oneLine(k.Key()), "error": r1.Err})
 	case !r1.Acc && len(k.Args) >= 3:
-		m.sample("rejected-head", 2, k.ID, map[string]string{"directive": oneLine(k.Directive()), "error": r1.Err})
+		m.sample("rejected-head", 2, k.ID, map[string]string{"directive": oneLine(k.Key()), "error": r1.Err})
 	}
 }
 
@@ -952,39 +1098,46 @@ func (m *monitor) judgeStartOne(k *Case, r *caseRes) {
 		fr := "unknown"
 		for _, l := range strings.Split(s.Stack, "\n") {
 			if mm := casketFnRe.FindStringSubmatch(l); mm != nil && !strings.HasPrefix(l, "\t") {
-				fr = mm[1]
+				fr = frameName(mm[1])
 				break
 			}
 		}
 		c.Count("panics", 1)
-		m.deferViolation(k.ID, "C11/panic-start/"+k.Dir+"/"+fr, fmt.Sprintf("real start of `%s` panics: %s", oneLine(k.Directive()), s.Panic),
+		m.deferViolation(k.ID, "C11/panic-start/"+k.Dir+"/"+fr, fmt.Sprintf("real start of `%s` panics: %s", oneLine(k.Key()), s.Panic),
 			map[string]interface{}{"casketfile": text, "panic": s.Panic, "stack": s.Stack, "call": "casket.Start(input)"})
 		return
 	}
+	dk := k.Dir
+	if k.With != nil {
+		dk = k.Dir + "+" + k.With.Dir
+		if k.With.Dir < k.Dir {
+			dk = k.With.Dir + "+" + k.Dir
+		}
+	}
 	c.Count("start_cases_compared", 1)
-	c.Nontrivial("start|" + k.Directive())
+	c.Nontrivial("start|" + k.Key())
 	if r.Started {
 		c.Count("start_really_started", 1)
 	}
 	switch {
 	case v.Acc && !r.StartAccepted:
 		c.Count("disagreements", 1)
-		m.deferViolation(k.ID, "C11/disagree/"+k.Dir+"/validate-accepts-start-rejects",
-			fmt.Sprintf("-validate accepts `%s` but a real start rejects it while executing directives: %s", oneLine(k.Directive()), r.StartErr),
+		m.deferViolation(k.ID, "C11/disagree/"+dk+"/validate-accepts-start-rejects",
+			fmt.Sprintf("-validate accepts `%s` but a real start rejects it while executing directives: %s", oneLine(k.Key()), r.StartErr),
 			map[string]interface{}{"casketfile": text, "validate": "nil error", "start_error": r.StartErr})
 	case !v.Acc && r.StartAccepted:
 		c.Count("disagreements", 1)
-		m.deferViolation(k.ID, "C11/disagree/"+k.Dir+"/validate-rejects-start-accepts",
-			fmt.Sprintf("-validate rejects `%s` (%s) but a real start executes all its directives", oneLine(k.Directive()), v.Err),
+		m.deferViolation(k.ID, "C11/disagree/"+dk+"/validate-rejects-start-accepts",
+			fmt.Sprintf("-validate rejects `%s` (%s) but a real start executes all its directives", oneLine(k.Key()), v.Err),
 			map[string]interface{}{"casketfile": text, "validate_error": v.Err, "start_error": r.StartErr, "started": r.Started})
 	case v.Acc && r.StartAccepted && !r.Started:
 		c.Count("start_failed_after_directives_accepted", 1)
-		m.sample("start-failed-after-acceptance(not judged)", 3, k.ID, map[string]string{"directive": oneLine(k.Directive()), "error": r.StartErr})
+		m.sample("start-failed-after-acceptance(not judged)", 3, k.ID, map[string]string{"directive": oneLine(k.Key()), "error": r.StartErr})
 	case v.Acc:
 		c.Count("start_agree_accept", 1)
-		m.sample("agree-accept", 2, k.ID, oneLine(k.Directive()))
+		m.sample("agree-accept", 2, k.ID, oneLine(k.Key()))
 	default:
 		c.Count("start_agree_reject", 1)
-		m.sample("agree-reject", 2, k.ID, map[string]string{"directive": oneLine(k.Directive()), "validate_error": v.Err, "start_error": r.StartErr})
+		m.sample("agree-reject", 2, k.ID, map[string]string{"directive": oneLine(k.Key()), "validate_error": v.Err, "start_error": r.StartErr})
 	}
 }
